@@ -153,6 +153,69 @@ func VerifC18_DeadNeighbour() {
 	}
 }
 
+// neighbours die one after the other: after every loss each destination's cost is the minimum over the neighbours
+// still alive (through any number of them, whatever their rank was) and a destination with none left is withdrawn
+func VerifC18_SequentialLoss() {
+	r := verifC18Router("/r0")
+	nn := verifParam("neighbours", 4)
+	dests := []enc.Name{verifC18Name("/d1"), verifC18Name("/d2")}[:verifParam("dests", 1)]
+	var nbrs []enc.Name
+	for i := 0; i < nn; i++ {
+		nbrs = append(nbrs, verifC18Name("/n"+string(rune('1'+i))))
+	}
+	// cost[d][n]: 16 = this neighbour does not offer the destination
+	cost := make([][]uint64, len(dests))
+	for d := range dests {
+		cost[d] = make([]uint64, nn)
+		for n := 0; n < nn; n++ {
+			cost[d][n] = verifRange("c", 1, 16)
+			if cost[d][n] < 16 {
+				r.rib.Set(dests[d], nbrs[n], cost[d][n])
+			}
+		}
+	}
+	alive := make([]bool, nn)
+	for i := range alive {
+		alive[i] = true
+	}
+	check := func() {
+		for d := range dests {
+			want := uint64(16)
+			for n := 0; n < nn; n++ {
+				if alive[n] && cost[d][n] < want {
+					want = cost[d][n]
+				}
+			}
+			verifAssert(r.rib.Has(dests[d]) == (want < 16), "C18/loss/reachable-iff-a-live-neighbour-offers-it")
+			got := uint64(16)
+			for _, e := range r.rib.Advert().Entries {
+				verifAssert(e.Cost < 16, "C18/advert/no-destination-at-or-above-infinity")
+				if e.Destination.Name.Equal(dests[d]) {
+					got = e.Cost
+				}
+			}
+			verifAssert(got == want, "C18/loss/cost-is-the-minimum-over-live-neighbours")
+		}
+	}
+	check()
+	losses := verifParam("losses", 3)
+	for k := 0; k < losses; k++ {
+		var cands []int
+		for n := 0; n < nn; n++ {
+			if alive[n] {
+				cands = append(cands, n)
+			}
+		}
+		if len(cands) == 0 {
+			break
+		}
+		n := cands[verifChoice("dies", len(cands))]
+		alive[n] = false
+		verifNoPanic("C18/loss/no-panic", func() { r.rib.RemoveNextHop(nbrs[n]); r.rib.Prune() })
+		check()
+	}
+}
+
 // global: up to 3 routers with real RIBs exchange advertisements in an explorer-chosen order,
 // then fairly until quiescence; the fixed point is the hop distance.
 func VerifC18_Converge3() {
